@@ -469,7 +469,7 @@ PANIC_PATTERNS = [
     ("assert", r"\b(assert|assert_eq|assert_ne)!\s*\("),
     ("div", r"[\w\)\]]\s*/\s*[\w\(]"),
     ("rem", r"[\w\)\]]\s*%\s*[\w\(]"),
-    ("sat_div", r"\.(saturating_div|wrapping_div|checked_div|div_euclid|rem_euclid|wrapping_rem)\s*\("),
+    ("sat_div", r"\.(saturating_div|wrapping_div|overflowing_div|div_euclid|rem_euclid|wrapping_rem|overflowing_rem|div_ceil|next_multiple_of|abs_diff_never)\s*\("),
     ("index", r"[\w\)\]]\[[^\]]+\]"),
     ("arith", r"[\w\)\]]\s(\+|-|\*)\s[\w\(]"),
     ("arith_assign", r"(\+=|-=|\*=|/=|%=|<<=|>>=)"),
